@@ -166,6 +166,19 @@ pub fn c02(c: &mut Ctx, b: &Budget) {
             let a = gen_assertion(c, &cfg, 0);
             let outer = c.assign(&format!("add {} {}", z, a));
             let host = if c.rng.chance(1, 2) { outer.clone() } else { let p = gen_leaf(c, &cfg); let asr = c.assign(&format!("assertion {} {}", p, outer)); let s1 = gen_leaf(c, &cfg); c.assign(&format!("add {} {}", s1, asr)) };
+            // the subject-level operations applied again to the node whose subject is obscured already
+            if let Some(oe) = c.env(&outer) {
+                for op in ["compress_subject", "compress", "elide"] {
+                    let r = c.assign(&format!("{} {}", op, outer));
+                    c.no_panic(&r, "obscuring");
+                    if let Some(res) = c.env(&r) {
+                        observe_env(c, &r, false);
+                        let v = check_positions(&oe, &res);
+                        c.check("digests-preserved", v.is_ok(), "digests-preserved", || format!("{} applied to a node whose subject is already obscured: {}: {} -> {}", op, v.unwrap_err(), shape(&oe), shape(&res)));
+                    }
+                }
+                c.count("branch:subject-op-on-obscured-subject");
+            }
             if let Some(orig) = c.env(&host) {
                 for act in ["compress".to_string(), "elide".to_string(), format!("encrypt:{}", KEY1)] {
                     for mode in ["rem", "rev"] {
@@ -542,6 +555,27 @@ pub fn c06(c: &mut Ctx, b: &Budget) {
         let bs = CBOR::to_byte_string(item.clone()).to_cbor_data();
         let mut embedded = vec![0xd8, 0xc8, 0xd8, 0x18]; embedded.extend_from_slice(&bs);
         decode_case(c, "legacy-tag", "legacy-24-embedded-bytes", &embedded);
+    }
+    // encodings spliced from pieces of valid ones: any envelope / a node with a non-assertion subject in an assertion slot, a
+    // repeated element, descending order, an obscured element out of place
+    for i in 0..(b.scenarios / 2).max(40) {
+        let mut scratch = Ctx::new("scratch", c.rng.next());
+        scratch.begin("x");
+        let subj = gen_leaf(&mut scratch, &cfg); let x = gen_env(&mut scratch, &cfg, 2); let y = gen_assertion(&mut scratch, &cfg, 1);
+        if let (Some(se), Some(xe), Some(ye)) = (scratch.env(&subj), scratch.env(&x), scratch.env(&y)) {
+            let z = Envelope::new_assertion("z", i as u64);
+            let (hi, lo) = if ye.digest() < z.digest() { (z.clone(), ye.clone()) } else { (ye.clone(), z.clone()) };
+            let (kind, parts): (&str, Vec<CBOR>) = match i % 6 {
+                0 => ("spliced-any-in-slot", vec![se.untagged_cbor(), xe.untagged_cbor()]),
+                1 => ("spliced-node-in-slot", { let inner = if xe.is_node() { xe.clone() } else { xe.add_assertion_envelope(ye.clone()).unwrap_or(xe.clone()) }; vec![se.untagged_cbor(), inner.untagged_cbor()] }),
+                2 => ("spliced-leaf-node-in-slot", vec![se.untagged_cbor(), se.add_assertion_envelope(ye.clone()).unwrap().untagged_cbor()]),
+                3 => ("spliced-repeated", vec![se.untagged_cbor(), ye.untagged_cbor(), ye.untagged_cbor()]),
+                4 => ("spliced-descending", vec![se.untagged_cbor(), hi.untagged_cbor(), lo.untagged_cbor()]),
+                _ => ("spliced-obscured-out-of-place", vec![se.untagged_cbor(), hi.untagged_cbor(), lo.elide().untagged_cbor()]),
+            };
+            let bytes = CBOR::to_tagged_value(200u64, CBOR::from(CBORCase::Array(parts))).to_cbor_data();
+            decode_case(c, "spliced", kind, &bytes);
+        }
     }
     for i in 0..b.scenarios {
         // a valid envelope, built silently on a scratch context
